@@ -9,6 +9,8 @@ Open Scope Z_scope.
 Section Ref.
 Variable fin : f64 -> Prop.
 Variable allow_null : bool.
+(* arrays in the data are admitted only together with schemas whose formats sit next to a type list that accepts arrays (see [local_clean]) *)
+Variable allow_arr : bool.
 Variable OR : oracles.
 Variable N : numops.
 Variable opt : options.
@@ -43,7 +45,7 @@ Qed.
 Fixpoint cleanr (n : nat) (s : schema) {struct n} : Prop :=
   match n with
   | O => False
-  | S m => exists k t, chain k s t /\ (k <= K)%nat /\ local_clean fin allow_null OR t /\ kids (cleanr m) t
+  | S m => exists k t, chain k s t /\ (k <= K)%nat /\ local_clean fin allow_null allow_arr OR t /\ kids (cleanr m) t
   end.
 
 (* the eager construction of the composition validators succeeds *)
@@ -58,7 +60,7 @@ Proof.
 Qed.
 
 Theorem agreement_with_references : forall n f1 f2 s, cleanr n s -> (n + K < f1)%nat -> (n * S K <= f2)%nat ->
-  forall p q d, jd fin allow_null d ->
+  forall p q d, jd fin allow_null allow_arr d ->
   exists r, sv_validate OR N opt defs f1 s p q d = Ok r /\ d4 OR N defs f2 s d = Some (r_valid r).
 Proof.
   induction n as [|n IH]; intros f1 f2 s Hc Hf1 Hf2 p q d Hd; [destruct Hc|].
@@ -69,8 +71,8 @@ Proof.
   assert (Hf2' : exists g2, f2 = (k + S g2)%nat /\ (n * S K <= g2)%nat).
   { exists (f2 - k - 1)%nat. cbn [Nat.mul] in Hf2. split; lia. }
   destruct Hf2' as [g2 [-> Hg2]]. rewrite (d4_chain d k s t Hch (S g2)). cbn [d4]. rewrite (chain_end k s t Hch).
-  apply (body_agree fin allow_null OR N opt Hopt_items Hopt_array Hord Heq_sym (sv_validate OR N opt defs g1) (d4 OR N defs g2)
-           (fun c p' q' d' Hd' => no_important_error OR N opt defs g1 c p' q' d' (jd_nohdr fin allow_null d' Hd')) t p q d Hl); [|exact Hd].
+  apply (body_agree fin allow_null allow_arr OR N opt Hopt_items Hopt_array Hord Heq_sym (sv_validate OR N opt defs g1) (d4 OR N defs g2)
+           (fun c p' q' d' Hd' => no_important_error OR N opt defs g1 c p' q' d' (jd_nohdr fin allow_null allow_arr d' Hd')) t p q d Hl); [|exact Hd].
   eapply kids_impl; [|exact Kd]. intros c Hcc p' q' d' Hd'. apply IH; [exact Hcc | lia | exact Hg2 | exact Hd'].
 Qed.
 
